@@ -138,7 +138,7 @@ fn run(c: &mut Ctx) {
                     gen::unit2(r)
                 }
             };
-            match k % 8 {
+            match k % 9 {
                 0 => {
                     // exact axis directions, including negative zero components
                     let d = *r.pick(&[[1.0, 0.0], [-1.0, 0.0], [0.0, 1.0], [0.0, -1.0], [1.0, -0.0], [-0.0, 1.0], [-1.0, -0.0], [-0.0, -1.0]]);
@@ -181,6 +181,17 @@ fn run(c: &mut Ctx) {
                     let nrm = Vector2::new(-e.y, e.x);
                     let offs = *r.pick(&[0.0, 1e-9, -1e-9, 1e-3, -1e-3, 1e-6]) * ext;
                     (Ray2::new(a + nrm * offs - e * (ext * r.range(0.0, 1.0)), e * mag * r.sign()), "parallel-to-edge")
+                }
+                7 => {
+                    // crossing an edge at a shallow angle: |dir x edge| from just above the point
+                    // where the crossing stops being decidable up to 1e-4 of the curve size
+                    let e = b - a;
+                    let target = size * r.log_range(3e-9, 1e-4);
+                    let sin = (target / e.norm()).min(0.5);
+                    let th = sin.asin() * r.sign();
+                    let d = Vector2::new(e.x * th.cos() - e.y * th.sin(), e.x * th.sin() + e.y * th.cos()).normalize();
+                    let p = a + e * r.range(0.3, 0.7);
+                    (Ray2::new(p - d * (e.norm() * r.range(0.0, 2.0)), d), "shallow-crossing")
                 }
                 _ => {
                     let d = dir_any(r);
